@@ -555,6 +555,13 @@ def run(ctx):
         "inputs_skipped_because_their_shape_already_crashed": stats["skipped_after_crash"],
         "drafty_fuzz": stats.get("drafty"),
         "model_correspondence": stats.get("model"),
+        "open_statements": [
+            "c13_no_panic_statement (code as it is): REFUTED by the model and by the implementation (c13_no_panic_refuted, c13_witnesses); the full theorem c13_no_panic holds for the code after findings/C13_*.diff only",
+            "c13_id_echo_statement: REFUTED (extra.obo rejected before the id is read; known finding id-echo-obo); c13_id_echo_partial proved",
+            "exactness of the trigger predicate (trigger -> panic) is shown by one witness per site, not for all inputs",
+            "error code >= 400 for ill-formed / non-existent topic names is not stated: the implementation answers 3xx in some paths (reply, not silence)",
+            "panic-freedom of unmodelled Go code: not provable here, fuzz only",
+        ],
         "trusted_base": [
             "harness/overlay/server/zz_verif_c13_test.go (population, recover wrapper = stand-in for the recover-less read loops, quiescence detector of zz_verif_topic_test.go, stub media handler / validator), memverif adapter",
             "tools/props/c13.py monitors (python restatement of the property on the implementation's answers), c13gen.py generators",
